@@ -12,13 +12,13 @@ COW = (re.compile(r"Cow<'a, str>"), 'String', None, "R5-Cow<'a,str> fields as St
 LT = (re.compile(r"<'a>"), '', None, 'R5-lifetime-parameter')
 LT2 = (re.compile(r"Evr<'a>"), 'Evr', None, 'R5-lifetime-parameter')
 
-PARTS = [Prelude('head.rs')] + [
-    Raw('use core::cmp::Ordering;\n'),
+PARTS = [Prelude('head.rs'), Prelude('vercmp.rs')] + [
     Decl(VER, 'struct', 'Evr', subs=[COW, LT]),
     Decl(VER, 'struct', 'Nevra', subs=[COW, LT2, LT]),
     Raw('''
-/// rpmvercmp on two strings: NOT under contract (C13 first sentence is not decided here)
-pub uninterp spec fn vercmp(a: Seq<char>, b: Seq<char>) -> Ordering;
+/// the string comparison is rpmvercmp (prelude/vercmp.rs)
+pub open spec fn vercmp(a: Seq<char>, b: Seq<char>) -> Ordering { rpmvercmp(a, b) }
+/// V:c13_vercmp:compare_version_string (proved there on the verbatim body)
 #[verifier::external_body]
 pub fn compare_version_string(version1: &str, version2: &str) -> (r: Ordering)
     ensures r == vercmp(version1@, version2@),
@@ -56,10 +56,6 @@ impl Evr {
        spec='    ensures r == nevra_cmp(*self, *other),'),
     Raw('''}
 // ---- the order laws lift from the string comparison to EVRs ------------------------------------
-pub open spec fn rev(o: Ordering) -> Ordering {
-    match o { Ordering::Less => Ordering::Greater, Ordering::Equal => Ordering::Equal, Ordering::Greater => Ordering::Less }
-}
-pub open spec fn le(o: Ordering) -> bool { o != Ordering::Greater }
 /// what "total preorder" means for a three-way comparison
 pub open spec fn vercmp_is_total_preorder() -> bool {
     &&& forall|a: Seq<char>| #[trigger] vercmp(a, a) == Ordering::Equal
@@ -119,6 +115,27 @@ pub proof fn lemma_evr_order(a: Evr, b: Evr, c: Evr)
         }
     }
 }
+/// the premise of lemma_evr_order holds: rpmvercmp is a total preorder (prelude/vercmp.rs, proved)
+pub proof fn lemma_vercmp_is_total_preorder()
+    ensures vercmp_is_total_preorder(),
+{
+    assert forall|a: Seq<char>| #[trigger] vercmp(a, a) == Ordering::Equal by { lemma_rpmvercmp_total_preorder(a, a, a); }
+    assert forall|a: Seq<char>, b: Seq<char>| #[trigger] vercmp(a, b) == rev(vercmp(b, a)) by { lemma_rpmvercmp_total_preorder(a, b, a); }
+    assert forall|a: Seq<char>, b: Seq<char>, c: Seq<char>| le(#[trigger] vercmp(a, b)) && le(#[trigger] vercmp(b, c)) implies le(vercmp(a, c)) by { lemma_rpmvercmp_total_preorder(a, b, c); }
+    assert forall|a: Seq<char>, b: Seq<char>, c: Seq<char>| #[trigger] vercmp(a, b) == Ordering::Equal && #[trigger] vercmp(b, c) == Ordering::Equal implies vercmp(a, c) == Ordering::Equal by { lemma_rpmvercmp_total_preorder(a, b, c); }
+    assert forall|a: Seq<char>, b: Seq<char>, c: Seq<char>| #[trigger] vercmp(a, b) == Ordering::Equal && le(#[trigger] vercmp(b, c)) implies vercmp(a, c) == vercmp(b, c) by { lemma_rpmvercmp_total_preorder(a, b, c); }
+    assert forall|a: Seq<char>, b: Seq<char>, c: Seq<char>| le(#[trigger] vercmp(a, b)) && #[trigger] vercmp(b, c) == Ordering::Equal implies vercmp(a, c) == vercmp(a, b) by { lemma_rpmvercmp_total_preorder(a, b, c); }
+}
+/// C13, unconditionally: EVR comparison is reflexive, antisymmetric under swapping, transitive
+pub proof fn lemma_evr_total_preorder(a: Evr, b: Evr, c: Evr)
+    ensures
+        evr_cmp(a, a) == Ordering::Equal,
+        evr_cmp(a, b) == rev(evr_cmp(b, a)),
+        le(evr_cmp(a, b)) && le(evr_cmp(b, c)) ==> le(evr_cmp(a, c)),
+{
+    lemma_vercmp_is_total_preorder();
+    lemma_evr_order(a, b, c);
+}
 // vacuity canary: must FAIL
 pub fn canary_c13(a: &Evr, b: &Evr)
 {
@@ -128,5 +145,5 @@ pub fn canary_c13(a: &Evr, b: &Evr)
 '''),
 ] + TAIL
 
-OBLIGATIONS = {'Evr::cmp': ['C13'], 'Nevra::cmp': ['C13'], 'lemma_evr_order': ['C13']}
+OBLIGATIONS = {'Evr::cmp': ['C13'], 'Nevra::cmp': ['C13'], 'lemma_evr_order': ['C13'], 'lemma_vercmp_is_total_preorder': ['C13'], 'lemma_evr_total_preorder': ['C13']}
 CANARIES = ['canary_c13']
